@@ -250,7 +250,12 @@ class Q(Fraction):
         return r
 
     def _op(self, o, f, reflected=False):
-        if isinstance(o, (Sym, SymBool, SymComplex)) or isinstance(o, _np.ndarray):
+        if isinstance(o, _np.ndarray):
+            # array (op) exact scalar: element by element (numpy defers to us because __array_ufunc__ is None)
+            from .arrays import elementwise
+
+            return elementwise((lambda x: f(x, self)) if reflected else (lambda x: f(self, x)), o)
+        if isinstance(o, (Sym, SymBool, SymComplex)):
             return NotImplemented
         if isinstance(o, complex):
             return NotImplemented
